@@ -952,6 +952,25 @@ func (c *Ctx) applyContract(x *ast.CallExpr, s *State, k *Contract, sig *types.S
 	for _, e := range k.Ensures {
 		s.assume(c.cevalBoolEnv(e.Expr, env))
 	}
+	// whatever reference a call hands back denotes an object that exists now (it may be one the callee allocated:
+	// `!was(allocated(r))` in its contract speaks about the heap before the call)
+	if !k.Pure {
+		for i, v := range resVals {
+			ref := ""
+			switch xv := v.(type) {
+			case SliceV:
+				ref = xv.Ref
+			case IntV:
+				if isRefLike(sig.Results().At(i).Type()) {
+					ref = xv.T
+				}
+			}
+			if ref != "" {
+				al := c.heapGet(s, "X.alloc", sA1)
+				c.heapSetQuiet(s, "X.alloc", sA1, store(al, ref, "1"))
+			}
+		}
+	}
 	switch nres {
 	case 0:
 		return NoneV{}
